@@ -56,6 +56,9 @@ func drawReq(t *tape.Tape, p *harness.Pkg, ops []int, i int) harness.ReqPlan {
 	}
 	rp.DefaultCode = cands[t.Choose(len(cands), "default-code")]
 	rp.Faults.Seed = uint64(t.Choose(1<<30, "fault-seed"))
+	if len(p.Schemes) > 0 && t.Choose(3, "transport-credential") == 1 {
+		rp.InjectCred = 1 + t.Choose(len(p.Schemes), "scheme")
+	}
 	return rp
 }
 
